@@ -42,6 +42,36 @@ class Hist1Prop:
         keep = self.fields_for(case)
         return diff_outputs(model_ok, io["outs"], keep, rtol)
 
+    DTYPE_LIMITS = {"int16": 2**15 - 1, "int32": 2**31 - 1, "int64": 2**63 - 1, "float16": 65504,
+                    "float32": Fraction(340282346638528859811704183484516925440)}
+
+    def beyond_model(self, case, model_ok, io):
+        """True when, according to the exact model, some stored content / squared error / missed count exceeds the range
+        of the dtype it is stored in (numpy then wraps around or overflows to inf)."""
+        if not isinstance(model_ok, list):
+            return False
+        for o in model_ok:
+            if not isinstance(o, dict):
+                continue
+            for r in o.get("regs") or []:
+                if not isinstance(r, dict):
+                    continue
+                lim = self.DTYPE_LIMITS.get(r.get("dtype"))
+                if lim is None:
+                    continue
+                vals = list(r.get("freq") or []) + list(r.get("err2") or []) + [r.get(k) for k in ("under", "over", "inner", "missed")]
+                for x in vals:
+                    if isinstance(x, str) and "/" not in x and x.lstrip("-").isdigit():
+                        if abs(int(x)) > lim:
+                            return True
+                    elif isinstance(x, str):
+                        try:
+                            if abs(Fraction(x)) > lim:
+                                return True
+                        except (ValueError, ZeroDivisionError):
+                            pass
+        return False
+
     def fields_for(self, case):
         return self.FIELDS
 
